@@ -359,8 +359,11 @@ def load_known():
 
 
 def write_evidence(prop, ev):
-    os.makedirs(os.path.join(VERIF, "evidence"), exist_ok=True)
-    with open(os.path.join(VERIF, "evidence", f"{prop}.json"), "w") as fh:
+    # runs against a scratch copy of the repository (VERIF_REPO, used to try seeded changes) must not
+    # overwrite the evidence of the registered check
+    edir = os.path.join(VERIF, "evidence") if REPO == "/repo" else os.path.join(WORK, "evidence_scratch")
+    os.makedirs(edir, exist_ok=True)
+    with open(os.path.join(edir, f"{prop}.json"), "w") as fh:
         json.dump(ev, fh, indent=1)
 
 
